@@ -4,7 +4,12 @@ B (model-based run-time contract): random branching histories of make_child on t
 with MAX_ANCESTORS in {1, 2, 3, 20, None}) against a plain dict model: get_value returns the most recent
 update along the history, else the fluent's default, else raises UPStateMissingFluentError; == and hash
 agree with equality of the total views.  P: UPState.get_value is proved on the real source for an arbitrary ancestor chain against the recursively defined finite-map
-view (loop invariant over the father link); make_child / _condense_state / == / hash are bounded only.
+view (loop invariant over the father link).  UPState.make_child is proved for any positive ancestor limit and for no limit (both branches: a child
+chained to its parent, and the condensing branch with its nested loops over the ancestor chain, the filtering dict comprehension and the
+constructor's loop, inlined from the real __init__): the child gives every fluent the updated value, else the parent's value under get_value
+semantics (explicit value, else default, else missing), a fatherless state stores only non-default values, ancestor counts are right, the
+parent chain is never written.  _condense_state / == / hash mutate the receiver in place while other states alias it as an ancestor: that needs
+a heap with mutable fields (not built) and stays in the bounded layer.
 """
 import random
 import warnings
@@ -18,7 +23,7 @@ USES_THEORY = False
 # fluent's default, otherwise raises UPStateMissingFluentError -- for every state, chain length and key.
 import z3
 from pyvc.values import Ref, Map, Opt, SBool, SRef, SUnion, fresh_name
-from pyvc.values import Bool as PBool
+from pyvc.values import Bool as PBool, Int as PInt, SInt, SMap, SSeq, Rec, Loc, CDict, zint, zbool, Unsupported
 from pyvc.verify import Unit
 from pyvc.engine import LoopSpec
 from pyvc import builtins as B
@@ -31,9 +36,11 @@ FS = Ref("FluentSet36")
 ST = Ref("UPState36")
 FN.observers["fluent"] = ((), FL)
 FS.fields["fluents_defaults"] = Map(FL, FN)
-ST.fields["_values"] = Map(FN, FN)
+ST.fields["_values"] = Map(FN, FN, ordered=True)
+ST.fields["_ancestors"] = PInt
 ST.fields["_father"] = Opt(ST)
 ST.fields["_fluent_set"] = FS
+ST.pycls = _sm.UPState       # methods not modelled here (e.g. _is_nondefault) are inlined from the real class
 QN_GV = "unified_planning.model.state.UPState.get_value"
 
 _S, _K = ST.z3sort(), FN.z3sort()
@@ -102,7 +109,168 @@ class GetValue(Unit):
         st.oblige("default otherwise", z3.Implies(z3.Not(Vhas(me.z, k.z)), z3.And(dh, r.z == dv)))
 
 
-UNITS = [GetValue()]
+# ------------------------------------------------------------------------------------------------ make_child
+from unified_planning.exceptions import UPValueError as _UPValueError   # noqa: E402
+QN_MC = "unified_planning.model.state.UPState.make_child"
+QN_INIT = "unified_planning.model.state.UPState.__init__"
+for _n in ("is_fluent_exp", "is_constant"):
+    FN.observers[_n] = ((), PBool)
+MAXSYM = z3.Int("MAX_ANCESTORS")
+
+
+class _SymLimit(_sm.UPState):
+    """stands for any subclass of UPState: MAX_ANCESTORS is an arbitrary positive integer"""
+    MAX_ANCESTORS = SInt(MAXSYM)
+
+
+class _NoLimit(_sm.UPState):
+    MAX_ANCESTORS = None
+
+
+def _dflt(fs_z, key_z):
+    fl = B._uf("FNode36.fluent()", _K, FL.z3sort())(key_z)
+    dh = z3.Select(B._uf("FluentSet36.fluents_defaults.has", FS.z3sort(), z3.ArraySort(FL.z3sort(), z3.BoolSort()))(fs_z), fl)
+    dv = z3.Select(B._uf("FluentSet36.fluents_defaults.val", FS.z3sort(), z3.ArraySort(FL.z3sort(), _K))(fs_z), fl)
+    return dh, dv
+
+
+def nondefault(fs_z, k, v):
+    dh, dv = _dflt(fs_z, k)
+    return z3.Or(z3.Not(dh), dv != v)
+
+
+class MakeChild(Unit):
+    prop = "C36"
+    allowed_raises = ()
+
+    def __init__(self, limit_cls, tag):
+        self.limit_cls = limit_cls
+        self.name = f"UPState.make_child [{tag}]"
+        self.doc = ("the child gives every fluent the updated value, else the parent's value (get_value semantics incl. defaults / missing); a condensed child "
+                    "has no father, stores only non-default values; the parent chain is not written")
+
+    def target(self):
+        return _sm.UPState.make_child
+
+    def configure(self, eng):
+        eng.axioms.extend(view_axioms())
+        ST.type_hook = lambda e, st, v: self.limit_cls
+        me_z = lambda L: L.self.z     # noqa: E731
+
+        def R(c, k):
+            """the key is still to be found from current_instance upwards"""
+            if c is None:
+                return z3.BoolVal(False), None
+            if isinstance(c, SUnion):
+                g_none = c.is_none().z
+                some = c.some()
+                return z3.And(z3.Not(g_none), Vhas(some.z, k)), some
+            return Vhas(c.z, k), c
+
+        def outer(L):
+            k = z3.Const(fresh_name("k"), _K)
+            comp, upd = L.complete_values, self._upd
+            rk, cur = R(L.current_instance, k)
+            me = me_z(L)
+            cval = Vval(cur.z, k) if cur is not None else Vval(me, k)
+            isf, isc = B._uf("FNode36.is_fluent_exp()", _K, z3.BoolSort()), B._uf("FNode36.is_constant()", _K, z3.BoolSort())
+            return [("every updated key is collected", z3.ForAll([k], z3.Implies(z3.Select(upd.has, k), z3.Select(comp.has, k)))),
+                    ("collected keys are fluent expressions with constant values",
+                     z3.ForAll([k], z3.Implies(z3.Select(comp.has, k), z3.And(isf(k), isc(z3.Select(comp.val, k)))))),
+                    ("found so far or still above == updated or in the parent's view",
+                     z3.ForAll([k], z3.Or(z3.Select(comp.has, k), rk) == z3.Or(z3.Select(upd.has, k), Vhas(me, k)))),
+                    ("collected values are the updated value, else the parent's view value",
+                     z3.ForAll([k], z3.Implies(z3.Select(comp.has, k), z3.Select(comp.val, k) == z3.If(z3.Select(upd.has, k), z3.Select(upd.val, k), Vval(me, k))))),
+                    ("a key not yet collected has, from current_instance upwards, the parent's view value",
+                     z3.ForAll([k], z3.Implies(z3.And(z3.Not(z3.Select(comp.has, k)), rk), cval == Vval(me, k))))]
+        eng.loops[(QN_MC, 0)] = LoopSpec(outer, modifies=["current_instance", "complete_values", "k", "v"],
+                                         types={"current_instance": Opt(ST), "complete_values": Map(FN, FN)})
+
+        def inner(L):
+            k = z3.Const(fresh_name("k"), _K)
+            comp = L.complete_values
+            c0 = L._pre.complete_values
+            items = L._seq
+            own, idx = items.m, items.idx
+            i = zint(L._i)
+            return [("collected == collected before this ancestor + its scanned entries (earlier entries win)",
+                     z3.ForAll([k], z3.And(z3.Select(comp.has, k) == z3.Or(z3.Select(c0.has, k), z3.And(z3.Select(own.has, k), z3.Select(idx, k) < i)),
+                                           z3.Implies(z3.Select(comp.has, k), z3.Select(comp.val, k) == z3.If(z3.Select(c0.has, k), z3.Select(c0.val, k), z3.Select(own.val, k))))))]
+        eng.loops[(QN_MC, 1)] = LoopSpec(inner, modifies=["k", "v", "complete_values"], types={"complete_values": Map(FN, FN)})
+
+        def init_loop(L):
+            k = z3.Const(fresh_name("k"), _K)
+            items = L._seq
+            src, idx = items.m, items.idx
+            i = zint(L._i)
+            me = L.self
+            vals = L.st.load(L.st.getfield(me, "_values"))
+            father = L._father
+            keep_all = z3.BoolVal(father is not None) if not isinstance(father, SUnion) else z3.Not(father.is_none().z)
+            fs = L.problems_fluent_set
+            if isinstance(vals, (B.PendingEmpty, CDict)):
+                has, val = (lambda kk: z3.BoolVal(False)), None
+            else:
+                has, val = (lambda kk: z3.Select(vals.has, kk)), vals.val
+            return [("stored == scanned entries that are kept (all under a father, the non-default ones otherwise)",
+                     z3.ForAll([k], z3.And(has(k) == z3.And(z3.Select(src.has, k), z3.Select(idx, k) < i, z3.Or(keep_all, nondefault(fs.z, k, z3.Select(src.val, k)))),
+                                           z3.Implies(has(k), (z3.Select(val, k) if val is not None else z3.Select(src.val, k)) == z3.Select(src.val, k)))))]
+        eng.loops[(QN_INIT, 0)] = LoopSpec(init_loop, modifies=["fluent", "value", "self._values"], types={"self._values": Map(FN, FN, ordered=True)})
+
+    def setup(self, eng, st):
+        me = ST.fresh("self")
+        upd = eng.fresh_of(st, Map(FN, FN, ordered=True), "updated_values")
+        self._upd = upd
+        st.assume(MAXSYM >= 1)
+        anc = B._uf("UPState36._ancestors", _S, z3.IntSort())
+        st.assume(anc(me.z) >= 0)
+        # class invariant of the states that exist: keys are fluent expressions, values constants (checked by every constructor call)
+        k = z3.Const(fresh_name("k"), _K)
+        isf, isc = B._uf("FNode36.is_fluent_exp()", _K, z3.BoolSort()), B._uf("FNode36.is_constant()", _K, z3.BoolSort())
+        s_ = z3.Const(fresh_name("s"), _S)
+        eng.axioms.append(z3.ForAll([s_, k], z3.Implies(z3.Select(vals_has(s_), k), z3.And(isf(k), isc(z3.Select(vals_val(s_), k)))), patterns=[z3.Select(vals_has(s_), k)]))
+        st.assume(z3.ForAll([k], z3.Implies(z3.Select(upd.has, k), z3.And(isf(k), isc(z3.Select(upd.val, k))))))
+        return [me, st.alloc(upd, "dict")], {}, dict(me=me, upd=upd)
+
+    def post(self, eng, ctx, st, out):
+        if out[0] != "return":
+            return
+        me, upd = ctx["me"], ctx["upd"]
+        child = eng.deref(st, out[1])
+        if not isinstance(child, Rec):
+            st.oblige("a new state object is returned", z3.BoolVal(False))
+            return
+        f = child.fields
+        vals = eng.deref(st, f["_values"])
+        father = f["_father"]
+        fs = B._uf("UPState36._fluent_set", _S, FS.z3sort())(me.z)
+        k = z3.Const(fresh_name("k"), _K)
+        if isinstance(vals, (B.PendingEmpty, CDict)):
+            chas, cval = (lambda kk: z3.BoolVal(False)), (lambda kk: kk)
+        else:
+            chas, cval = (lambda kk: z3.Select(vals.has, kk)), (lambda kk: z3.Select(vals.val, kk))
+        dh, dv = _dflt(fs, k)
+        # get_value semantics of the parent and of the specification
+        p_has, p_val = z3.Or(Vhas(me.z, k), dh), z3.If(Vhas(me.z, k), Vval(me.z, k), dv)
+        s_has, s_val = z3.Or(z3.Select(upd.has, k), p_has), z3.If(z3.Select(upd.has, k), z3.Select(upd.val, k), p_val)
+        if father is None:
+            c_has, c_val = z3.Or(chas(k), dh), z3.If(chas(k), cval(k), dv)
+            st.oblige("a state without a father stores only non-default values", z3.ForAll([k], z3.Implies(chas(k), nondefault(fs, k, cval(k)))))
+            st.oblige("a state without a father has no ancestors", zint(f["_ancestors"]) == 0)
+        else:
+            st.oblige("the father of an uncondensed child is the state it was made from", father.z == me.z)
+            c_has = z3.Or(chas(k), p_has)
+            c_val = z3.If(chas(k), cval(k), p_val)
+            st.oblige("ancestor count grows by one", zint(f["_ancestors"]) == B._uf("UPState36._ancestors", _S, z3.IntSort())(me.z) + 1)
+            st.oblige("an uncondensed child only when the limit allows it", B._uf("UPState36._ancestors", _S, z3.IntSort())(me.z) < MAXSYM
+                      if self.limit_cls is _SymLimit else z3.BoolVal(False))
+        st.oblige("the child has a value for exactly the fluents that are updated or have a value in the parent",
+                  z3.ForAll([k], c_has == s_has))
+        st.oblige("that value is the updated one, else the parent's", z3.ForAll([k], z3.Implies(s_has, c_val == s_val)))
+        st.oblige("the child shares the parent's fluent set (defaults)", f["_fluent_set"].z == fs)
+
+
+UNITS = [GetValue(), MakeChild(_SymLimit, "any positive ancestor limit"), MakeChild(_NoLimit, "no limit")]
 
 
 def bounded(tier, seed):
